@@ -610,6 +610,21 @@ func exec(name string, a []string) {
 		runScenario(a[0], 120, tr.NewRand(17))
 	case "netns":
 		w.Op(l) // marker only: the case was produced inside a private network namespace
+	case "ifrename":
+		// ifrename <index> <new name>: the interface is renamed under the running process (private namespace only)
+		idx, nn := l.Int(0), string(l.Bytes(1))
+		old, ok := ifByIndex(idx)
+		if !ok || ipRun == nil || !ipRun("link", "set", "dev", old, "name", nn) {
+			w.Hist("netns-rename-skipped")
+			return
+		}
+		for k := range ifaces {
+			if ifaces[k].Index == idx {
+				ifaces[k].Name = nn
+			}
+		}
+		w.Op(l)
+		w.Hist("netns-rename")
 	case "keep":
 		sa := parseSA(a[1:])
 		w.Op(l)
@@ -1239,6 +1254,39 @@ func netnsPhase(r *tr.Rand, mult int) {
 			exec("lsa", []string{"0", tr.X(ll), "8080", tr.X([]byte(i.Name))})
 		}
 		w.End()
+		// an interface is renamed while the process runs: conversions made afterwards report the NEW name for its
+		// index (and resolve the new name, not the old one); values handed out before keep the old name
+		newCase("ns", "netns-rename")
+		exec("netns", []string{"interface-renamed"})
+		nk := 0
+		for n, victim := range []string{"9x", "br-verif", "6to4", "12ab"} {
+			idx := 0
+			for _, i := range ifaces {
+				if i.Name == victim {
+					idx = i.Index
+				}
+			}
+			if idx == 0 {
+				continue
+			}
+			exec("i2z", []string{tr.I(idx)})
+			exec("rts", []string{"tcp", "sa6", "443", tr.I(idx), tr.X(ll)})
+			exec("keepz", []string{tr.I(idx)})
+			exec("keep", []string{"udp", "sa6", "53", tr.I(idx), tr.X(ll)})
+			nn := fmt.Sprintf("rn%d-%s", n, victim)
+			exec("ifrename", []string{tr.I(idx), tr.X([]byte(nn))})
+			exec("i2z", []string{tr.I(idx)})
+			exec("rts", []string{"udp", "sa6", "443", tr.I(idx), tr.X(ll)})
+			exec("rts", []string{"tcp", "sa6", "80", tr.I(idx), tr.X(ll)})
+			exec("z2i", []string{tr.X([]byte(nn))})
+			exec("z2i", []string{tr.X([]byte(victim))})
+			exec("rt", []string{"udp", ipArg(ll), "4242", tr.X([]byte(nn))})
+			exec("recheck", []string{tr.I(nk)})
+			exec("recheck", []string{tr.I(nk + 1)})
+			nk += 2
+			w.Tag("netns-interface-renamed")
+		}
+		w.End()
 	})
 }
 
@@ -1261,6 +1309,8 @@ func withNetns(f func()) (ran bool) {
 			return
 		}
 		run := func(args ...string) bool { return exec_Command(ipTool, args...) == nil }
+		ipRun = run
+		defer func() { ipRun = nil }()
 		run("link", "set", "lo", "up")
 		created := 0
 		for _, spec := range [][]string{
@@ -1284,6 +1334,9 @@ func withNetns(f func()) (ran bool) {
 	ifaces = saved
 	return
 }
+
+// ipRun runs the `ip` tool inside the private namespace while withNetns is active
+var ipRun func(args ...string) bool
 
 func exec_LookPath(name string) (string, error) { return osexec.LookPath(name) }
 
